@@ -54,10 +54,13 @@ def make_plans(chk, rng):
     """(kind, methods, copy operations, dialects of the first compilation, MaxNodes, MaxDepth, MaxRepeat) per TLC run"""
     kinds = ["select", "orm", "query", "insert", "update", "delete"]
     plans = []
+    # "wide" runs: EVERY generative method of the kind, shallow trees (parent, child, grandchild or sibling), so that
+    # each method is derived from a compiled and from a not yet compiled parent in every run whatever the seed
+    for kind in kinds:
+        plans.append((kind, list(METHODS[kind]), [], [rng.choice(DIALECTS)], 3, 6, 1))
     if chk.quick:
-        big = set(rng.sample(kinds, 2))
         for kind in kinds:
-            ms = rng.sample(METHODS[kind], 3 if kind in big else 2)
+            ms = rng.sample(METHODS[kind], 2)
             plans.append((kind, ms, [rng.choice(HOWS[kind])], rng.sample(DIALECTS, 2), 4, 7, 1))
     else:
         for kind in kinds:
